@@ -519,7 +519,7 @@ fn cmd_run(a: &Args) -> i32 {
         "distinct_positions": total.positions.len(),
         "distinct_positions_capped": total.positions_capped,
         "distinct_op_trigrams": total.trigrams.len(),
-        "longest_game_plies": total.max_len,
+        "max_accepted_pushes_in_one_run": total.max_len,
         "faults_fired": faults,
         "probes": probes,
         "ops": opsm,
